@@ -111,6 +111,9 @@ func cmdList() int {
 		for _, c := range f.Maintains {
 			add(c.Props)
 		}
+		for _, c := range f.Establishes {
+			add(c.Props)
+		}
 		for _, c := range f.Relational {
 			add(c.Props)
 		}
@@ -209,6 +212,11 @@ func allProps(p *Prog) []string {
 			}
 		}
 		for _, c := range f.Maintains {
+			for _, q := range c.Props {
+				seen[q] = true
+			}
+		}
+		for _, c := range f.Establishes {
 			for _, q := range c.Props {
 				seen[q] = true
 			}
